@@ -345,6 +345,17 @@ fn run(ctx: &RunCtx) -> Report {
                 }
                 report.probe("adaptive_with_most_advertised_peers_dead", 1);
             }
+            // reachable nodes, 1 run in 3: *a previous life* - the node's address is still listed by its peers under
+            // the id of an earlier incarnation (it ran there as a server until a moment ago), so its own lookups
+            // are pointed at its own address
+            if situation == 0 && crng.chance(1, 3) {
+                let own = SocketAddrV4::new(spec.ip, 6881);
+                let old_id = crng.id();
+                for i in 0..rawnet.len() {
+                    rawnet.with_peer(i, |p| p.extra_nodes.push((old_id, own)));
+                }
+                report.probe("adaptive_with_own_address_listed_under_an_old_id", 1);
+            }
             if confused_until.is_some() {
                 let wrong = SocketAddrV4::new(pub_ip(&mut crng), 6881);
                 for i in 0..rawnet.len() {
